@@ -535,6 +535,37 @@ def r6_continuation_prompt_pairing(ctx):
                        'a continuation prompt is inserted into the stored line but not into the line the labeller tests: the line is shown as `... text` yet labelled as the start of a '
                        'new statement, so the displayed doctest groups (and evaluates) differently when it is parsed again', anchor=f.qualname)
     rep.floor('C18.R6', 'continuation prompts inserted by _complete_source', n, 1)
+    # what follows the inserted prompt is the WHOLE text of the line (the line minus its indentation), not the line minus the four columns
+    # where a prompt would have been: the un-prompted line has no prompt to cut
+    rdc = ctx.rd(f)
+    gcs = ctx.cfg(f)
+    for node in gcs.nodes:
+        st = node.ast
+        if node.dup or node.kind != 'stmt' or not (isinstance(st, ast.Assign) and len(st.targets) == 1 and isinstance(st.targets[0], ast.Name) and isinstance(st.value, ast.BinOp)):
+            continue
+        parts_ = []
+
+        def flat(e):
+            if isinstance(e, ast.BinOp) and isinstance(e.op, ast.Add):
+                flat(e.left)
+                flat(e.right)
+            else:
+                parts_.append(e)
+        flat(st.value)
+        idx = [i for i, e in enumerate(parts_) if isinstance(e, ast.Constant) and isinstance(e.value, str) and e.value.strip() == '...']
+        if not idx or idx[0] + 1 >= len(parts_):
+            continue
+        tail = parts_[idx[0] + 1]
+        if not isinstance(tail, ast.Name):
+            continue
+        ds = [d for d in rdc.at(node, tail.id) if isinstance(d.value, ast.AST)]
+        # the text after the prompt: a slice that starts at the indentation (whole line) is right, a slice that starts at a constant column cuts text
+        cuts = [d for d in ds if isinstance(d.value, ast.Subscript) and isinstance(d.value.slice, ast.Slice) and isinstance(d.value.slice.lower, ast.Constant)
+                and isinstance(d.value.slice.lower.value, int) and d.value.slice.lower.value > 0]
+        rep.ob('C18.R6', ctx.loc(f, st), ctx.src(st, 90), not cuts,
+               'the inserted prompt is followed by the whole text of the line' if not cuts else
+               'the text put after the inserted `... ` is `%s` = `%s`: the first %d characters of an un-prompted line (which has no prompt there) are cut off, so a line of a '
+               'triple-quoted string loses text in the stored and in the displayed source' % (tail.id, ctx.src(cuts[0].value), cuts[0].value.slice.lower.value), anchor=f.qualname)
     # the branch that accepts an un-prompted body line of an open triple-quoted string is live and does accept: it is reachable when constant
     # switches are taken into account, and from it the "bad indentation" raise cannot be reached before the line is yielded
     g = ctx.cfg(f)
@@ -616,6 +647,7 @@ DE = 'xdoctest/doctest_example.py'
 DP = 'xdoctest/doctest_part.py'
 US = 'xdoctest/utils/util_str.py'
 VARIANTS = [
+    fire('inserted-prompt-followed-by-the-cut-line', 'C18.R6', ('xdoctest/parser.py', "                        next_line = next_line[:state_indent] + '... ' + norm_line\n", "                        next_line = next_line[:state_indent] + '... ' + suffix\n")),
     fire('options-merged-after-the-numbering-was-computed', 'C18.R5', (DE, "        colored = self.config.getvalue('colored', colored)\n        partnos = self.config.getvalue('partnos')\n        offset_linenos = self.config.getvalue('offset_linenos', offset_linenos)\n\n        n_digits = None\n", '\n        n_digits = None\n'), (DE, '            n_digits = int(math.ceil(n_digits))\n\n        for part in self._parts:\n            part_text = part.format_part(', "            n_digits = int(math.ceil(n_digits))\n\n        colored = self.config.getvalue('colored', colored)\n        partnos = self.config.getvalue('partnos')\n        offset_linenos = self.config.getvalue('offset_linenos', offset_linenos)\n        for part in self._parts:\n            part_text = part.format_part(")),
     fire('format-src-default-is-an-explicit-value', 'C18.R5', (DE, "    def format_src(self, linenos=True, colored=None, want=True,\n                   offset_linenos=None, prefix=True):\n", "    def format_src(self, linenos=True, colored=None, want=True,\n                   offset_linenos=False, prefix=True):\n")),
     fire('getvalue-merges-by-truthiness', 'C18.R5', (DE, "        if given is None:\n            return self[key]\n", "        if not given:\n            return self[key]\n")),
